@@ -55,7 +55,7 @@ CharCps == {97, 65, 48, 32, 10, 955, 40, 41, 34, 59, 124, 92, 35, 39}
            \cup {0, 1, 31, 127, 133, 160, 173, 8203, 8232, 65279, 65534, 69821, 113824, 119155, 262141, 917505, 917631, 983040, 1048576, 1114109, 1114111, 128512, 233}
            \cup (IF Level = 1 THEN {} ELSE (0..300) \cup {k * 257 : k \in 2..250} \cup {65536 + k * 4099 : k \in 0..255} \cup {8233, 65533, 55295, 57344, 65535, 65536})
 CharObjs == {Chr(c) : c \in CharCps \ (55296..57343)}      \* Unicode scalars: no surrogates
-SymNames == {"abc", "a-b", "a b", "A", "aB", "1", "1.5", "-", "+", "1+", "a(b", ";x", "a'b", "a|b", "a\\b", ".", "..", "#a", "a#", "a:b", "&rest", "nil-p", "t1", "a,b", "`", "*x*", "1e5", "1/2"}
+SymNames == {"abc", "a-b", "a b", "A", "aB", "1", "1.5", "-", "+", "1+", "a(b", ";x", "a'b", "a|b", "a\\b", ".", "..", "#a", "a#", "a:b", "&rest", "nil-p", "t1", "a,b", "`", "*x*", "1e5", "1/2", "a\nb", "two\n  lines"}
 Syms == {Sym(n) : n \in SymNames} \cup {Kw("kw"), Kw("a b"), Kw("K")} \cup (IF Level = 1 THEN {} ELSE {Kw(n) : n \in {"1", "a(b", "a|b", "x-y"}})
 Leaves == Ints \cup Ratios \cup Floats \cup Strings \cup CharObjs \cup Syms \cup {Nil, T}
 
@@ -72,7 +72,8 @@ Wraps(o) ==
   \cup (IF Level = 1 THEN {} ELSE {List(<<o, o, o, o, o, o, o, o>>), List(<<List(<<o>>), Vec(<<o>>), Nil>>), Vec(<<>>)})
   \cup (IF Family = "hash" THEN {Hash(<<<<Sym("k"), o>>>>), Hash(<<<<Str(Cps("s t")), o>>, <<IntO("7", FALSE), Sym("v")>>, <<Kw("kw"), List(<<o, o>>)>>>>), Hash(<<>>)} ELSE {})
 StructSeeds == {IntO("7", FALSE), IntO("9223372036854775808", FALSE), Ratio("1", "3", FALSE), Float("double", "0.1"), Float("single", "4"), Str(Cps("a\"b\\c")),
-                Str(<<97, 10, 98>>), Chr(32), Chr(97), Sym("abc"), Sym("a b"), Sym("1"), Kw("kw"), Nil, T, Float("long", "1.5")}
+                Str(<<97, 10, 98>>), Chr(32), Chr(97), Sym("abc"), Sym("a b"), Sym("1"), Kw("kw"), Nil, T, Float("long", "1.5"),
+                Sym("a\nb"), Vec(<<Str(<<97, 10, 98>>), Sym("x")>>)}      \* leaves whose text has more than one line, directly and inside a vector
 Init == /\ depth = 0
         /\ obj \in (IF Family = "leaf" THEN Leaves ELSE StructSeeds)
 Next == /\ Family \in {"struct", "hash"} /\ depth < MaxDepth
